@@ -22,6 +22,18 @@ def main(argv):
             tier = argv[argv.index('--tier') + 1]
         seed = int(os.environ.get('VERIF_SEED', '0') or 0)
         return check.check(pid, tier, seed)
+    if argv[0] == 'stamp':
+        # records, for every function under contract, how many loops its (rewritten) body has on the CURRENT tree
+        gen.STAMPING = True
+        counts = {}
+        for f in sorted(os.listdir(os.path.join(gen.VERIF, 'units'))):
+            if f.endswith('.rs'):
+                _, info = gen.expand(f[:-3])
+                for rec in info['functions']:
+                    counts[rec['fn'].split('#')[0]] = rec['loops']
+        json.dump(counts, open(os.path.join(gen.VERIF, 'contracts', 'loopcounts.json'), 'w'), indent=0, sort_keys=True)
+        print('%d functions stamped' % len(counts))
+        return 0
     if argv[0] == 'manifest':
         from . import manifest
         manifest.build()
